@@ -538,6 +538,63 @@ def churn(mon: Monitor, rng: random.Random, codes, n: int) -> None:
     mon.obs["churn_constructions"] += n
 
 
+TRAVEL_SCRIPT = r'''
+import sys, pickle, random, warnings, base64
+warnings.filterwarnings("ignore")
+from vf.props import c19
+from vf.kernel import call
+fams = c19.families(random.Random(int(sys.argv[1])))
+out = []
+for name, vals in fams.items():
+    for i, v in enumerate(vals):
+        b0, _ = call(pickle.dumps, v)                   # never touched
+        call(hash, v); call(lambda: {v: 1}); call(c19.tok, v); c19.readonly_use(name, v); call(lambda: v == vals[0]); call(hash, v)
+        b1, _ = call(pickle.dumps, v)                   # hashed, used as a key, tokenised, queried
+        out.append((name, i, b0, b1))
+sys.stdout.write("@@" + base64.b64encode(pickle.dumps(out)).decode())
+'''
+
+
+def travel(mon: Monitor, seed: int) -> None:
+    """Values built (and for one variant: hashed, used as dictionary keys, tokenised and queried) in ANOTHER interpreter with a different string-hash seed, pickled there and
+    unpickled here - what a dask worker or a later run receives.  Here each arrival must be indistinguishable from the same value built locally: equal both ways, same hash
+    (dictionary look-ups hit), same token, same equalities with the rest of its family."""
+    import base64
+
+    env = dict(os.environ, PYTHONHASHSEED=str(1 + (int(os.environ.get("PYTHONHASHSEED", "0") or 0) + 4241) % 4000000))
+    p = subprocess.run([sys.executable, "-c", TRAVEL_SCRIPT, str(seed)], env=env, capture_output=True, text=True, timeout=900, cwd=str(ROOT))
+    line = [l for l in p.stdout.splitlines() if l.startswith("@@")]
+    if p.returncode != 0 or not line:
+        return mon.error("travel", f"producer interpreter failed: {p.stderr[-400:]}")
+    arrivals = pickle.loads(base64.b64decode(line[0][2:]))
+    fams = families(random.Random(seed))
+    for name, i, b0, b1 in arrivals:
+        fresh = fams[name][i]
+        hashable = call(hash, fresh)[1] is None
+        for variant, b in (("untouched", b0), ("used", b1)):
+            if b is None:
+                mon.skip(f"{name}.travel", "not picklable where it was built (judged by the pickle check)")
+                continue
+            t, e = call(pickle.loads, b)
+            desc = {"type": name, "value": repr(fresh)[:160], "variant": variant, "built_with_PYTHONHASHSEED": env["PYTHONHASHSEED"]}
+            if e is not None:
+                mon.fail(f"{name}.travel", {**desc, "exc": e}, key="travel-unpickle-raises", cls=variant)
+                continue
+            if name == "GCPGeoBox":
+                mon.check(gcp_content(t) == gcp_content(fresh), f"{name}.travel", {**desc, "why": "content differs"}, key="clone-content-differs", cls=variant)  # K2: equality by identity, content compared
+                continue
+            if crs_str_of(t) != crs_str_of(fresh):
+                mon.skip(f"{name}.travel", "CRS spelled differently in the two interpreters (K1/K3 territory)")
+                continue
+            same, _ = call(lambda: bool(t == fresh) and bool(fresh == t))
+            ok_hash = (not hashable) or (call(hash, t)[0] == hash(fresh) and {fresh: 1}.get(t) == 1 and t in {fresh})
+            ok_tok = call(tok, t)[0] == tok(fresh)
+            pattern = all(call(lambda o=o: bool(t == o))[0] == call(lambda o=o: bool(fresh == o))[0] for o in fams[name])
+            key = "clone-unequal" if not same else "travel-hash" if not ok_hash else "clone-token" if not ok_tok else "travel-eq-pattern"
+            mon.check(bool(same) and ok_hash and ok_tok and pattern, f"{name}.travel", lambda: {**desc, "equal": same, "hash_and_lookup_ok": ok_hash, "token_ok": ok_tok, "same_equalities_with_family": pattern},
+                      key=key, cls=variant, sig=hsig(name, "tr", variant, i, seed))
+
+
 def run(mon: Monitor, tier: str, seed: int, shard: int, nshards: int) -> None:
     global _mon
     _mon = mon
@@ -551,6 +608,12 @@ def run(mon: Monitor, tier: str, seed: int, shard: int, nshards: int) -> None:
                 relation_check(mon, name, vals)
             except Exception as e:
                 mon.error(name, e)
+    mon.case = {"kind": "travel"}
+    for k in range(1 if q else 3):
+        try:
+            travel(mon, seed * 1000 + shard * 10 + k)
+        except Exception as e:
+            mon.error("travel", e)
     mon.case = None
     # B + C
     codes = epsg_pool(rng, 120 if q else 600)
@@ -578,6 +641,7 @@ def run(mon: Monitor, tier: str, seed: int, shard: int, nshards: int) -> None:
         mon.floor(f"{name}.pickle-equal", 10)
         mon.floor(f"{name}.uneq-token", 30)
         mon.floor(f"{name}.readonly-use", 10)
+        mon.floor(f"{name}.travel", 8 if name != "GCPGeoBox" else 2)
     for pt, n in [("CRS.routes", 500), ("history", 300), ("transformer-cache", 100), ("transformer-cache|always_xy|lookalike", 20), ("GeoBox.eq-hash", 3), ("BoundingBox.eq-hash", 3), ("XY.eq-hash", 3), ("CRS.eq-hash", 3),
                   ("history|after-colliding-route|wkt", 1), ("history|after-colliding-route|pyproj", 1), ("CRS.routes|wkt~pyproj", 10), ("CRS.routes|int~json", 10)]:
         mon.floor(pt, n)
